@@ -73,7 +73,8 @@ COMPONENTS = {
 }
 ASSUMPTIONS = [
     "an entry is SELECTED when its basis path or its working path lies at/below a specific_files path (all entries when specific_files is None) and neither lies at/below an exclude path; the new revision is the basis inventory with the selected entries replaced by their working-tree state (parent id, name, kind, content, exec) and selected entries that are missing on disk removed (they are also unversioned in the tree)",
-    "selections whose literal application is not a tree (an unselected entry left without parent, two entries on one name, a directory deleted with an unselected child), or which need entries outside the selection (new / renamed parents that are not selected: treesim._selection_closed), or which enter a state listed in treesim.GUARDS (reported dirstate path-filter defects) are not generated and not judged: the model declines them and the commit is not executed",
+    "selections which need entries outside the selection (new / renamed parents that are not selected: treesim._selection_closed), or which enter a state listed in treesim.GUARDS (reported dirstate path-filter defects) are not generated and not judged: the model declines them and the commit is not executed",
+    "selections whose literal application is not a tree that an inventory delta can express (an unselected entry left without parent, two entries on one name, a selected entry whose unselected parent was renamed, a directory deleted with an unselected child) may be refused (breezy raises InconsistentDelta from finish_inventory): such a commit is executed only as the target, fault-free, and judged only by 'a commit that raises changes nothing'; when breezy accepts it the recorded content is not judged (probe unappliable_selection_accepted)",
     "a specific_files path that is versioned in neither tree must be refused (PathsNotVersionedError) with nothing changed; exclude paths are not validated by breezy and unversioned exclude paths are simply ignored",
     "commits run with explicit rev_id / timestamp / committer, allow_pointless=True, no pending merges (selected-file commits of merges are refused by design)",
     "set-up operations are not judged here (C09 does); if the real tree and the model disagree before a commit (probe presync_mismatch) the run stops without verdict",
@@ -81,6 +82,8 @@ ASSUMPTIONS = [
     "after a failed commit a new process may have to break locks the failed one left (not judged here: C27); the retry runs after break_lock",
     "when the injected error is swallowed and commit returns normally, the success oracle applies",
     "every rewrite of a file changes its length; restoring the checkout from the pristine copy gives new inodes/ctimes, so the dirstate stat cache never vouches for a restored file wrongly",
+    "runs execute in-process (ISOLATION=thread) and every fault point starts from a pre-state rebuilt from snapshots (fresh memory store with the same bytes, checkout directory copied back) with fresh breezy objects; VERIF_C01_FORK=1 forks every point (forkenum), VERIF_C01_ISOLATION=fork forks every run - measured 20-40x slower on this VM, same verdicts",
+    "signatures of 'commit raised but something changed' are keyed by commit phase when the write group was already committed (pack-names-done / tip-written: the two anticipated, recorded findings) and by the exact failing operation before that (any hit there is new)",
 ]
 
 
@@ -677,6 +680,14 @@ _INPROC = [False]
 
 def execute(sim, plan):
     warm()
+    cosim.start_tracking()
+    try:
+        _execute(sim, plan)
+    finally:
+        cosim.dispose_repos()
+
+
+def _execute(sim, plan):
     T.quiet()
     T.settle_randomness(sim.seed)
     sim.disarm()
@@ -888,6 +899,7 @@ _warmed = []
 def warm():
     storesim.warm()
     T.quiet()
+    cosim.install_repo_tracker()
     if _warmed:
         return
     _warmed.append(1)
